@@ -282,7 +282,7 @@ def gen_engine(rng, tier):
     add([lit("abc")], [3, 4, 2], "plain")
     add([ls("x")], [RSIZE_MAX_STR + 1], "entry")
     # random structures
-    for _ in range(3000 if thorough else 60):
+    for _ in range(8000 if thorough else 60):
         items = []
         for _ in range(rng.randint(1, 5)):
             r = rng.random()
@@ -599,7 +599,7 @@ def gen_norm(rng, tier):
     out.append(norm_case(build_text(rng, [-200]), 150, "nfc", "dec-nospace"))
     out.append(reorder_case(build_text(rng, [-3]), 1025, 3, "entry"))
     out.append(compose_case(build_text(rng, [-3]), 1025, 0, "entry"))
-    for _ in range(3000 if thorough else 40):
+    for _ in range(8000 if thorough else 40):
         sh = []
         for _ in range(rng.randint(1, 5)):
             sh.append(-rng.randint(1, 3))
@@ -927,6 +927,10 @@ def run(tier, seed, replay=None):
     res.extra["site_coverage"] = {"%s (%s #%d)" % (label(k), k[0], k[1]): dict(file=k[0], line=inv_sites[k][1], call=inv_sites[k][0], reached=reached.get(k, 0), failed=failed_at.get(k, 0),
                                                   example=site_examples.get(k)) for k in sorted(inv_sites)}
     res.extra["entry_points_driven"] = sorted(fn_seen)
+    fv = {}
+    for c in cases:
+        fv.setdefault(c.m.split()[0].split("=")[1] + ("/" + c.fn if c.fam in ("engine", "wprobe", "fold") else ""), set()).add(c.m)
+    res.extra["distinct_feature_vectors"] = {k: len(v) for k, v in sorted(fv.items())}
     res.extra["inputs_dropped_for_dmax_wraparound"] = dropped
     res.extra["cases"] = len(cases)
     trusted = ["Lean 4.33 kernel; axioms propext, Classical.choice, Quot.sound only (audited per theorem on every run)",
